@@ -287,6 +287,64 @@ def c_refusal(ctx, case):
                      f"non-smoothness allowed the forbidden constructs are {sorted(set(forb))}")
 
 
+def _plain_numbers(e):
+    """the expression with every numpy scalar replaced by the exact Python number it holds"""
+    import numpy as np
+
+    def leaf(v):
+        if isinstance(v, np.bool_):
+            return bool(v)
+        if isinstance(v, np.integer):
+            return int(v)
+        if isinstance(v, np.floating):
+            return F(float(v))
+        return v
+    return G.deep_rebuild(e, leaf=leaf)
+
+
+@check("C10.kinds")
+def c_kinds(ctx, case):
+    """Constants of fixed-width numpy kinds (they wrap around when multiplied), floats where
+    ints are usual, bools: the differentiator does symbol manipulation, not arithmetic in the
+    constants' own type -- the derivative, read with every constant as the exact number it
+    holds, is the derivative of the expression read the same way."""
+    e, wrt, seed = case
+    rng = ctx.sub_rng("pts", seed)
+    wv = p.make_variable(wrt) if isinstance(wrt, str) else wrt
+    ctx.case(None)
+    ctx.count("kind_derivatives")
+    try:
+        de = differentiate(e, wrt)
+    except RecursionError:
+        raise
+    except Exception as ex:  # noqa: BLE001
+        ctx.fail("C10.kinds", case, f"raised:{type(ex).__name__}",
+                 f"differentiate({G.src(e)}, {wrt}) raised {type(ex).__name__}: {ex}")
+        return
+    pe, pde = _plain_numbers(e), _plain_numbers(de)
+    for pt in points(rng, 3, True):
+        Kinks.reset()
+        try:
+            ref = D.lift(refsem.ev(pe, dual_env(pt, wv)))
+        except (ZeroDivisionError, ValueError, OverflowError, TypeError):
+            continue
+        got = refsem.outcome(lambda: refsem.ev(pde, dict(pt)))
+        if got[0] != "v":
+            continue
+        ctx.count("kind_derivative_values")
+        try:
+            ok = got[1] == ref.d if not isinstance(got[1], float) and not isinstance(ref.d, float) \
+                else abs(complex(got[1]) - complex(ref.d)) <= 1e-9 * (1 + abs(complex(ref.d)))
+        except (OverflowError, TypeError):
+            ok = True
+        if not ok:
+            ctx.fail("C10.kinds", case, f"value:{_top(e)}",
+                     f"d/d{wrt} of {G.src(e)} = {G.src(de)}; read with exact constants, at {pt} it "
+                     f"is {got[1]!r}, the dual-number derivative of the expression read the same "
+                     f"way is {ref.d!r}")
+            return
+
+
 def stream_rows(seed, n):
     import random
     from collections import Counter
@@ -437,6 +495,27 @@ def workload(ctx):
             ctx.run("C10.diff", (e, "none", True, rng.randrange(10**9)))
             e = p.Sum(tuple(p.Product((i + 1, p.Power(X, i % 5))) for i in range(w)))
             ctx.run("C10.diff", (e, "none", True, rng.randrange(10**9)))
+        # kinds of numbers as coefficients, exponents and addends of every rule
+        import numpy as np
+        coeffs = [np.int8(50), np.int8(-100), np.int16(300), np.int32(1_500_000_000), np.int32(46341),
+                  np.int64(5 * 10**18), np.int64(2**62), np.float32(0.1), np.float64(2.0), np.bool_(True),
+                  True, 2.0, 40.0, 2**53 + 1, np.uint8(200)]
+        shapes = [lambda c: p.Power(p.Product((X, c)), 3), lambda c: p.Power(p.Product((c, X)), 2),
+                  lambda c: p.Power(p.Sum((p.Product((c, X)), 1)), c if isinstance(c, (int, np.integer))
+                                    and not isinstance(c, (bool, np.bool_)) and abs(int(c)) < 6 else 2),
+                  lambda c: p.Product((c, X, c, p.Sum((X, c)))),
+                  lambda c: p.Quotient(p.Product((c, X)), p.Sum((p.Power(X, 2), c))),
+                  lambda c: p.Power(p.Product((X, c)), np.int16(300) if isinstance(c, np.int16) else 4),
+                  lambda c: p.Product((p.Power(p.Product((c, X)), 2), p.Power(p.Product((c, Y)), 3))),
+                  lambda c: p.CommonSubexpression(p.Power(p.Sum((p.Product((c, X)), Y)), 3))]
+        for c in coeffs:
+            for mk in shapes:
+                if not ctx.mine("kinds"):
+                    continue
+                e = mk(c)
+                ctx.case(("kinds", G.src(e)), True, n=0)
+                for wrt in (X, "x", Y):
+                    ctx.run("C10.kinds", (e, wrt, rng.randrange(10**9)))
         n = ctx.per_shard(ctx.pick(2500, 50000))
         for i in range(n):
             alg = i % 2 == 0
@@ -488,6 +567,7 @@ def workload(ctx):
             if k.endswith("map_math_functions_by_name"):
                 ctx.count("handler:map_math_functions_by_name", v)
     ctx.floor("wide_nodes", 50)
+    ctx.floor("kind_derivative_values", 500)
     ctx.floor("stream:rows", 300)
     ctx.floor("stream:compared_exactly", 500)
     ctx.floor("stream:row_address_reused", 100)
